@@ -679,7 +679,7 @@ func TestC24CompactPrefixes(t *testing.T) {
 	}
 	// offered first: the driver needs a sample list even when the enumeration fails early
 	stc.Sample(func() interface{} {
-		return map[string]interface{}{"prefixes": len(prefixes), "domain": "all prefixes of length 0-1, length 2-3 over {00,01,7f,fe,ff}; root tables and nested pairs"}
+		return map[string]interface{}{"prefixes": len(prefixes), "domain": "all prefixes of length 0-1, length 2-3 over {00,01,7f,fe,ff}; root tables and nested pairs; 0xff runs of length 4-17 with optional head/tail byte, root and nested under 5 parents"}
 	})
 	covers := func(c compactCall, p []byte) bool {
 		if c.start != nil && bytes.Compare(c.start, p) > 0 {
@@ -709,6 +709,37 @@ func TestC24CompactPrefixes(t *testing.T) {
 				t.Fatalf("table(%x).NewTable(%x).Compact(nil,nil) asked the underlying store for %v, which does not cover every key with prefix %x", p, q, und.compacts, eff)
 			}
 			stc.Case(stats.Hash("nested", p, "/", q), kvmodel.EndsFF(q) || kvmodel.EndsFF(p), "nested_table")
+		}
+	}
+	// long prefixes around machine-word sizes: runs of 0xff of length 4..17, alone, after a head byte and
+	// before a tail byte (carry through the whole run), as root tables and nested under short parents
+	var long [][]byte
+	for n := 4; n <= 17; n++ {
+		run := bytes.Repeat([]byte{0xff}, n)
+		long = append(long, run)
+		for _, h := range al {
+			long = append(long, cat([]byte{h}, run))
+			long = append(long, cat(run, []byte{h}))
+		}
+	}
+	parents := [][]byte{{}, {0x01}, {0xff}, {0xff, 0xff}, {0x00, 0xff}}
+	for _, q := range long {
+		for _, p := range parents {
+			und := &recStore{Store: memorydb.New()}
+			var tb *table.Table
+			if len(p) == 0 {
+				tb = table.New(und, q)
+			} else {
+				tb = table.New(und, p).NewTable(q)
+			}
+			if err := tb.Compact(nil, nil); err != nil {
+				t.Fatalf("Compact error: %v", err)
+			}
+			eff := cat(p, q)
+			if len(und.compacts) != 1 || !covers(und.compacts[0], eff) {
+				t.Fatalf("table(%x).NewTable(%x).Compact(nil,nil) asked the underlying store for %v, which does not cover every key with prefix %x", p, q, und.compacts, eff)
+			}
+			stc.Case(stats.Hash("long", p, "/", q), true, "long_ff_run")
 		}
 	}
 	stc.Exhaustive(true)
